@@ -6,6 +6,7 @@
    eext    extraction (3x3, 4x4, quaternion, constructors) and conversion back
    eany    extraction in an order other than the one the rotation was built in; re-ordering
    enear   makeNear / nearestRotation / simpleXYZRotation
+   enear2  makeNear towards a target held in another order
    exalgo  extractEulerXYZ / extractEulerZYX / extractEuler;   amod   angleMod *)
 EXTENDS Euler, TraceIO
 VARIABLE l
@@ -73,6 +74,15 @@ EnearOK(r) ==
         /\ NearMat(M3(r.t, r.mnr), A, E256(t)) /\ \A i \in 1..3 : WithinPi(t, nr[i], xt[i])
         /\ NearMat(Upper3(r.t, r.sm1), Upper3(r.t, r.sm0), E256(t)) /\ \A i \in 1..3 : WithinPi(t, sr[i], tg[i])
 
+\* makeNear towards a target held in another order: "the target" is the target re-expressed in this object's order (the
+\* re-ordering constructor, itself bound to the target's rotation here), the rotation and the order stay what they were
+Enear2OK(r) ==
+    LET t == "f"  A == M3(r.t, r.m)
+        near == Nums(r.t, r.near)  tre == Nums(r.t, r.tre)
+    IN  /\ r.ordtre = r.code /\ r.ordnear = r.code
+        /\ NearMat(M3(r.t, r.mtre), M3(r.t, r.mtgt), E256(t))
+        /\ NearMat(M3(r.t, r.mnear), A, E256(t)) /\ \A i \in 1..3 : WithinPi(t, near[i], tre[i])
+
 ExalgoOK(r) == LET t == r.t IN
     /\ NearMat(Upper3(t, r.bx), Upper3(t, r.m), E256(t))
     /\ NearMat(Upper3(t, r.bz), Upper3(t, r.mz), E256(t))
@@ -88,7 +98,7 @@ AmodOK(r) ==
         /\ \E k \in -2100..2100 : D!DCmpAbs(D!DSub(D!DSub(x, y), D!DMul(D!DInt(k), twopi)), tol) <= 0
 
 Judge(r) == CASE r.e = "order" -> OrderOK(r) [] r.e = "emat" -> EmatOK(r) [] r.e = "eext" -> EextOK(r) [] r.e = "eany" -> EanyOK(r)
-              [] r.e = "enear" -> EnearOK(r) [] r.e = "exalgo" -> ExalgoOK(r) [] r.e = "amod" -> AmodOK(r) [] OTHER -> FALSE
+              [] r.e = "enear" -> EnearOK(r) [] r.e = "enear2" -> Enear2OK(r) [] r.e = "exalgo" -> ExalgoOK(r) [] r.e = "amod" -> AmodOK(r) [] OTHER -> FALSE
 What(r) == IF Has(r, "code") THEN <<r.e, r.t, r.code>> ELSE <<r.e, r.t>>
 Init == l = 1
 Next == \/ /\ l <= TraceLen
